@@ -41,7 +41,7 @@ def install(eng):
                    always=True)
     eng.enumerator("cli-interrupted-run", ["C09"], SCHED + CALLBACKS + BACKEND + ["gwf.plugins.run:run"], enum_cli.run_c09, crosscheck=True)
     HASHES = [k for k in eng.contracts if "SpecHashes" in k or k in ("gwf.core:get_spec_hashes", "gwf.core:hash_spec")]
-    eng.enumerator("cli-spec-hashes", ["C18", "C01"], HASHES + CALLBACKS + ["gwf.plugins.run:run", "gwf.plugins.touch:touch",
+    eng.enumerator("cli-spec-hashes", ["C18", "C01", "C06"], HASHES + CALLBACKS + ["gwf.plugins.run:run", "gwf.plugins.touch:touch",
                    "gwf.plugins.clean:clean", "gwf.plugins.touch:touch_workflow", "gwf.plugins.touch:touch_workflow._visit"],
                    enum_cli.run_c18, crosscheck=True)
     eng.enumerator("cli-clean", ["C15"], ["gwf.plugins.clean:clean", "gwf.plugins.clean:_delete_file"] + FILTERS,
@@ -70,7 +70,7 @@ def install(eng):
     eng.enumerator("ops-command-lines-on-failure", ["C17"], OPS + BACKEND, enum_ops.run([enum_ops.check_submit]), crosscheck=True)
     eng.enumerator("ops-state-tables", ["C08"], OPS + BACKEND, enum_ops.run([enum_ops.check_states, enum_ops.check_job_tables]), always=True)
     # C10: compile_script has no unbounded contract (order of option lines): this bounded stand-in decides that clause
-    eng.enumerator("job-scripts-under-bash", ["C10"], OPS, enum_ops.run([enum_ops.check_scripts, enum_ops.check_logs]), always=True)
+    eng.enumerator("job-scripts-under-bash", ["C10"], OPS, enum_ops.run([enum_ops.check_scripts, enum_ops.check_logs, enum_ops.check_directives]), always=True)
     eng.enumerator("command-failure-kinds", ["C09", "C07", "C17"], ["gwf.backends.utils:call"] + OPS + BACKEND,
                    enum_ops.run([enum_ops.check_call_failures]), crosscheck=True)
     eng.enumerator("option-resolution", ["C10"], ["gwf.scheduling:submit_backend"] + CALLBACKS,
